@@ -106,7 +106,7 @@ func init() {
 	register(&Prop{ID: "C15", Pkgs: []HarnessPkg{{Dir: "vnet", Name: "vnet"}}, InitPkgs: []string{"vnet"}, InstrDirs: []string{"vnet"},
 		Runs: func(tier string) []gosym.RunConfig {
 			mk := func(k, rate, burst, queue, maxlen int64) gosym.RunConfig {
-				return gosym.RunConfig{Name: fmt.Sprintf("tbf-k%d-r%d-b%d-q%d", k, rate, burst, queue), Entry: "VerifTBF", Sched: true, Unwind: 8,
+				return gosym.RunConfig{Name: fmt.Sprintf("tbf-k%d-r%d-b%d-q%d", k, rate, burst, queue), Entry: "VerifTBF", Sched: true, Unwind: 8, FeasMs: 800,
 					Params: map[string]int64{"k": k, "rate": rate, "burst": burst, "queue": queue, "maxlen": maxlen, "steps": 40}}
 			}
 			if tier == "thorough" {
